@@ -57,6 +57,28 @@ def log_code(log) -> str:
     return type(log).__name__
 
 
+def check_entry_points() -> None:
+    """the seams the harness wraps or calls must exist; otherwise stop with a harness error (exit 2)
+    rather than let an oracle misread the run."""
+    from pams.runners.sequential import SequentialRunner
+    missing = []
+    for cls, names in ((Market, ("setup", "_add_order", "_cancel_order", "_execution", "_update_time", "get_time",
+                                 "get_market_price", "get_best_buy_price", "get_buy_order_book", "is_running")),
+                       (Simulator, ("_update_times_on_markets", "_update_agents_for_execution", "_add_event",
+                                    "_trigger_event_before_order", "_trigger_event_after_execution")),
+                       (SequentialRunner, ("_setup", "_run", "class_register")),
+                       (Logger, ("write", "bulk_write", "write_and_direct_process", "process", "_process")),
+                       (Agent, ("submit_orders", "submitted_order", "executed_order", "canceled_order", "setup"))):
+        for n in names:
+            if not hasattr(cls, n):
+                missing.append(f"{cls.__name__}.{n}")
+    if missing:
+        raise RuntimeError("pams entry points used by the harness are missing: " + ", ".join(missing))
+
+
+check_entry_points()
+
+
 def make_classes(ctx: Ctx) -> Dict[str, type]:
     mon = ctx.mon
 
